@@ -28,8 +28,10 @@ def const_of(t):
     return T.const_int(t)
 
 
-def run(ctx):
-    for cfg in CONFIGS:
+def run(ctx, configs=None):
+    """configs: restrict to these (used by C06/C07, whose `values arrive unchanged` covers cells of 16 MiB and more and
+    therefore includes the framing clauses)."""
+    for cfg in (configs or CONFIGS):
         prog = ctx.prog(cfg)
         roles, eff = effects.build(prog)
         ft, fw, fl, fnew = roles.f_term, roles.f_wr, roles.f_flush, roles.f_new
